@@ -29,7 +29,7 @@ type Obligation struct {
 	NTriv   int
 	Result  *ObResult
 	Failure string // engine-level failure (unsupported construct on a path)
-	smt     string
+	smts    []string
 	trivial bool
 }
 
@@ -624,7 +624,7 @@ func (v *Verifier) step(st *State, instr ssa.Instruction) bool {
 		return true
 	case *ssa.Lookup:
 		v.lookup(st, in)
-		return true
+		return !st.dead
 	case *ssa.Extract:
 		t := v.val(st, in.Tuple)
 		st.env[in] = t.Args[in.Index]
@@ -973,6 +973,42 @@ func (v *Verifier) lookup(st *State, in *ssa.Lookup) {
 	}
 	ms := mapSortOf(in.X.Type())
 	o := Select(st.getHeap(ms), x)
+	// finite-domain concretisation: a lookup with a symbolic key in a map whose
+	// entries are all known splits into one path per entry plus "absent".
+	if es, known := mapKnown[o]; known && !k.ground && len(es) > 1 && len(es) <= 64 && !st.initMod {
+		for _, e := range es {
+			c := Eq(k, e.k)
+			if !v.feasible(st, c) {
+				continue
+			}
+			s2 := st.clone()
+			s2.assume(c)
+			if in.CommaOk {
+				s2.env[in] = mkTuple(e.v, TTrue)
+			} else {
+				s2.env[in] = e.v
+			}
+			if k.Op == "var" {
+				s2.substVar(k, e.k)
+			}
+			v.explore(s2)
+		}
+		var ds []*Term
+		for _, e := range es {
+			ds = append(ds, Neq(k, e.k))
+		}
+		st.assume(And(ds...))
+		zero := zeroTerm(ms.Fields[1].Sort.Elem)
+		if in.CommaOk {
+			st.env[in] = mkTuple(zero, TFalse)
+		} else {
+			st.env[in] = zero
+		}
+		if !v.feasible(st, TTrue) {
+			st.dead = true
+		}
+		return
+	}
 	ok := Select(Sel(o, 0), k)
 	val := Select(Sel(o, 1), k)
 	vs := ms.Fields[1].Sort.Elem
